@@ -750,6 +750,24 @@ def _symmetric_in_first_two(fnode):
                         [dotted(x) for x in reversed(st.value.elts)] \
                         and {dotted(x) for x in st.value.elts} == set(a):
                     return True
+    # `lo, hi = (j, i) if i > j else (i, j)` (any direction / either arm)
+    for n in ast.walk(fnode):
+        if isinstance(n, ast.Assign) and isinstance(n.targets[0], ast.Tuple) \
+                and len(n.targets[0].elts) == 2 \
+                and isinstance(n.value, ast.IfExp) \
+                and isinstance(n.value.test, ast.Compare) \
+                and len(n.value.test.ops) == 1 \
+                and isinstance(n.value.test.ops[0], (ast.Gt, ast.Lt, ast.GtE,
+                                                     ast.LtE)) \
+                and {dotted(n.value.test.left),
+                     dotted(n.value.test.comparators[0])} == set(a):
+            arms = [n.value.body, n.value.orelse]
+            if all(isinstance(x, ast.Tuple) and len(x.elts) == 2
+                   for x in arms) and \
+                    [dotted(x) for x in arms[0].elts] == \
+                    [dotted(x) for x in reversed(arms[1].elts)] and \
+                    {dotted(x) for x in arms[0].elts} == set(a):
+                return True
     lo = hi = False
     for n in ast.walk(fnode):
         if isinstance(n, ast.Call) and dotted(n.func) in (
@@ -777,6 +795,22 @@ def rule_sym1(ctx):
     if sym:
         r.ok("SYM1", "sym_index", loc(callee, callee.node), "",
              "orders (i, j) before computing the index")
+    # an ordering construct the rule does not classify: no verdict
+    a2 = {x.arg for x in callee.node.args.args[:2]}
+    unclear = False
+    if not sym:
+        for n in ast.walk(callee.node):
+            names = {x.id for x in ast.walk(n) if isinstance(x, ast.Name)}
+            if isinstance(n, ast.Compare) and a2 <= names:
+                unclear = True
+            if isinstance(n, ast.Call) and dotted(n.func) in (
+                    "min", "max", "sorted", "abs", "np.minimum",
+                    "np.maximum", "np.sort", "divmod") and a2 <= names:
+                unclear = True
+        if unclear:
+            r.note("SYM1", loc(callee, callee.node), "sym_index",
+                   "compares / orders its two indices in a form the rule "
+                   "does not classify (not judged)")
     sites = 0
     for f in ctx.p.all_functions:
         if f.module.rel != REP:
@@ -787,7 +821,7 @@ def rule_sym1(ctx):
                 continue
             sites += 1
             r.analysed(f)
-            if sym:
+            if sym or unclear:
                 continue
             a, b = c.args[0], c.args[1]
             ordered = ast.dump(a) == ast.dump(b)
